@@ -69,9 +69,17 @@ class MetaRunner(object):
     def run(self):
         """Run all runners, blocking until completion or error"""
         self._logger.info("starting all runners")
+        # failure of a runner that makes this run close its runners
+        self._failure = None
         try:
             asyncio.run(self._manage_runners())
         except KeyboardInterrupt:
+            if self._failure is not None:
+                # the runners were already being closed because of a failure when
+                # the interrupt arrived: the failure must not pass silently
+                err, self._failure = self._failure, None
+                self._logger.error("runner terminated: %s", err, exc_info=err)
+                raise RuntimeError("background task failed") from err
             self._logger.info("runner interrupted")
         except Exception as err:
             self._logger.exception("runner terminated: %s", err)
@@ -101,7 +109,9 @@ class MetaRunner(object):
             # When we get resurrected, the exception has already been handled!
             # Just clean up...
             await asyncio.shield(self._aclose_runners(runner_tasks))
-        except BaseException:
+        except BaseException as err:
+            if isinstance(err, Exception):
+                self._failure = err
             await asyncio.shield(self._aclose_runners(runner_tasks))
             raise
         finally:
@@ -145,7 +155,12 @@ class MetaRunner(object):
         for runner in self._runners.values():
             await runner.aclose()
         # wait until runners are closed
-        await asyncio.gather(*runner_tasks, return_exceptions=True)
+        results = await asyncio.gather(*runner_tasks, return_exceptions=True)
+        if self._failure is None:
+            # a runner that ended by a failure of its own, not by being closed
+            self._failure = next(
+                (result for result in results if isinstance(result, Exception)), None
+            )
         # no longer running *before* the runners disappear: a concurrent registration
         # that finds no runner must queue its payload instead of raising
         self.running.clear()
